@@ -8,7 +8,7 @@ SHRINK_KEYS = ["fixes", "exprs", "terms"]
 RULE = ("random BQM (float64/float32/object), QM, CQM (in-place one-by-one, in-place bulk, copying path) and BinaryPolynomial "
         "models with dyadic coefficients, squared integer terms, constants, variables missing from some expressions; a random "
         "subset of variables is fixed; a case is non-trivial when the model has at least one term; distinct by canonical JSON of the case")
-TRUSTED = ["model: coq/theories/Model/Poly.v, HPoly.v, ChkC03.v (hand written, tied by this correspondence)",
+TRUSTED = ["model: coq/theories/Model/Poly.v, HPoly.v, ChkC03.v (hand written, tied by this correspondence); code-shaped models Model/FixPy.v (views/quadratic.py loop) and Model/FixCopy.v over Model/Expr.v (constrained_quadratic_model.h fix_variables / fix_variables_expr and the in-place path with shifted indices), run on the raw expression state (_iindices/_ilinear/_iquadratic, varinfo) observed before and compared with the raw state observed after",
            "float arithmetic of the implementation is exact on the generated dyadic data (not verified)"]
 ASSUMPTIONS = ["the coefficients a model reports (linear, quadratic, offset) define its energy (that is property C01)",
                "IEEE-754 arithmetic is exact on the small dyadic coefficients generated"]
